@@ -1176,8 +1176,35 @@ _FIX_PROBES = {
     "forIterFirst": ("for zq in [zq]:\n    pass\n", "zq"),
     "annValueFirst": ("zq: int = zq\n", "zq"),
     "compScope": ("class C:\n    zq = 1\n    b = [zq for i in [1]]\n", "zq"),
+    "paramAnnOuter": ("def f(zq, y: zq):\n    pass\n", "zq"),
+    "delDotted": ("import zq.a\ndel zq\nzq.a.b\n", "zq.a.b"),
+    "classModuleOnly": ("zq\ndef f():\n    class zq:\n        pass\n", "zq"),
+    "returnsOuter": ("def f(zq) -> zq:\n    pass\n", "zq"),
+}
+# flags that only show in unused-import mode: true iff scan_for_import_issues reports no unused import for the probe
+_UNUSED_PROBES = {
+    "allUseMark": "from zqa import x as zq\n__all__ = ['zq']\nfrom zqb import x as zq\n",
+    "condStore": "import zqa as zq\nif 1:\n    import zqb as zq\nzq\n",
+    "deferredNames": "def f():\n    return zq\nimport zqa as zq\nimport zqb as zq\nzq\n",
 }
 _FIXES_CACHE = {}
+
+
+def probe_unmodelled():
+    """Mechanisms of the code under test that the Lean model of the unused-import mode does not have (yet):
+    -> list of names; the unused-import correspondence is skipped (and says so) while the list is non-empty."""
+    out = []
+    fx = probe_fixes()
+    try:
+        from pyflyby._autoimp import scan_for_import_issues
+        from pyflyby._parse import PythonBlock
+        src = "import zqa as zq\nif 1:\n    import zqb as zq\n"
+        _, unused = scan_for_import_issues(PythonBlock(src), find_unused_imports=True, parse_docstrings=False)
+        if fx.get("condStore") and len(unused) == 2:
+            out.append("shadowed _UseChecker chains (conditionally replaced imports are reported when nothing reads the name)")
+    except Exception:
+        pass
+    return out
 
 
 def probe_fixes():
@@ -1190,6 +1217,14 @@ def probe_fixes():
         for k, (src, name) in _FIX_PROBES.items():
             try:
                 out[k] = name in [str(x) for x in find_missing_imports(src, [{}])]
+            except Exception:
+                out[k] = False
+        for k, src in _UNUSED_PROBES.items():
+            try:
+                from pyflyby._autoimp import scan_for_import_issues
+                from pyflyby._parse import PythonBlock
+                _, unused = scan_for_import_issues(PythonBlock(src), find_unused_imports=True, parse_docstrings=False)
+                out[k] = len(unused) == 0
             except Exception:
                 out[k] = False
         _FIXES_CACHE[key] = out
